@@ -57,8 +57,13 @@ def generate(seed, tier, cfg):
     asc = gen.gen_score(st.workload, profile=("kernmei" if fmt == "kern" else ("mei2" if cfg == "mei-in" else "mei")) if rich else "simple", size=gen.pick_size(tier, st.knobs))
     if cfg == "mei-in" and k.random() < 0.06:
         asc = tiny_compound(k)
-    if k.random() < 0.05:
+    x_ = k.random()
+    if x_ < 0.05:
         asc = tiny_breve(k)
+    elif x_ < 0.08:
+        asc = tiny_big_chords(k)
+    elif x_ < 0.11 and cfg.endswith("-in"):
+        asc = tiny_many_staves(k)
     mid = False
     if cfg.endswith("-rt") and rich and k.random() < 0.5:
         # middle level: the full subset minus what the writers are known not to handle (ties, grace notes,
@@ -428,6 +433,10 @@ def run_in(res, fs, asc, kn, fmt, path, faults, shape):
                 res.violation("N1-notes", "load", "MEI staff %d: loaded notes differ from what the notation denotes: missing %s, unexpected %s" % (stf["n"], fmtn(miss), fmtn(extra)), site=_classify(miss, extra))
                 return
             part = info.get(stf["n"])
+            if part is not None and stf.get("def_id") and kn["route"] in ("direct", "load_score", "url") and str(part.id) != stf["def_id"]:
+                # the notes of a staff belong to the part made from its staffDef
+                res.violation("N2-structure", "load", "MEI staff %d (staffDef %s): its notes are in part %s" % (stf["n"], stf["def_id"], part.id), site="staff-to-part")
+                return
             if part is not None and not getattr(res, "notes_only", False):
                 if len(set(v for *_, g, v in stf["notes"])) > 1:
                     res.probe("mei_layers")
@@ -538,6 +547,47 @@ def tiny_breve(k):
         "notes": notes, "slurs": [], "tuplets": [], "dirs": [], "tempos": [], "repeats": [], "endings": [], "nav": [], "fermatas": [],
     }
     return {"id": None, "parts": [part], "groups": None}
+
+
+def tiny_big_chords(k):
+    """a boundary score: chords of 8 to 10 notes with accidentals (one token of a kern line is then longer than 32
+    characters, an MEI chord has that many children)"""
+    q = 2
+    L = 4 * q
+    notes = []
+    steps = "CDEFGAB"
+    for m in range(2):
+        for b in range(2):
+            n = k.choice((8, 9, 10))
+            for c in range(n):
+                notes.append({"id": "p1n%d" % (len(notes) + 1), "kind": "note", "t": m * L + b * 2 * q, "e": m * L + (b + 1) * 2 * q, "voice": 1, "staff": 1, "sym": {"type": "half", "dots": 0}, "m": m, "g": None, "step": steps[c % 7], "alter": (1 if (c + b) % 2 else -1) if steps[c % 7] not in "" else None, "octave": 2 + c // 7 + 2 * (c % 2)})
+    part = {
+        "id": "P1", "name": "Part P1", "abbr": None, "qdivs": [[0, q]], "nstaves": 1, "end": 2 * L,
+        "measures": [{"s": m * L, "e": (m + 1) * L, "number": m + 1, "name": str(m + 1)} for m in range(2)],
+        "timesigs": [{"t": 0, "beats": 4, "beat_type": 4}], "keysigs": [{"t": 0, "fifths": 0, "mode": None}],
+        "clefs": [{"t": 0, "staff": 1, "sign": "G", "line": 2, "oct": 0}],
+        "notes": notes, "slurs": [], "tuplets": [], "dirs": [], "tempos": [], "repeats": [], "endings": [], "nav": [], "fermatas": [],
+    }
+    return {"id": None, "parts": [part], "groups": None}
+
+
+def tiny_many_staves(k):
+    """a boundary score: 10 to 14 one-staff parts (an orchestral score: staff numbers with two digits)"""
+    n = k.choice((10, 11, 12, 14))
+    q = 1
+    L = 4
+    parts = []
+    for pi in range(n):
+        pid = "P%d" % (pi + 1)
+        notes = [{"id": "%sn%d" % (pid.lower(), m + 1), "kind": "note", "t": m * L, "e": (m + 1) * L, "voice": 1, "staff": 1, "sym": {"type": "whole", "dots": 0}, "m": m, "g": None, "step": "CDEFGAB"[(pi + m) % 7], "alter": None, "octave": 2 + pi % 5} for m in range(2)]
+        parts.append({
+            "id": pid, "name": "Part " + pid, "abbr": None, "qdivs": [[0, q]], "nstaves": 1, "end": 2 * L,
+            "measures": [{"s": m * L, "e": (m + 1) * L, "number": m + 1, "name": str(m + 1)} for m in range(2)],
+            "timesigs": [{"t": 0, "beats": 4, "beat_type": 4}], "keysigs": [{"t": 0, "fifths": 0, "mode": None}],
+            "clefs": [{"t": 0, "staff": 1, "sign": "G", "line": 2, "oct": 0}],
+            "notes": notes, "slurs": [], "tuplets": [], "dirs": [], "tempos": [], "repeats": [], "endings": [], "nav": [], "fermatas": [],
+        })
+    return {"id": None, "parts": parts, "groups": None}
 
 
 def strip_unsupported(asc, fmt):
